@@ -5,7 +5,7 @@
 set -u
 S="$(realpath "$1")"; ID="$2"
 WT="/tmp/mt/confirm_$ID"; rm -rf "$WT"; git -C /repo worktree prune; mkdir -p /tmp/mt
-git -C /repo worktree add -q --detach "$WT" HEAD || exit 3
+git -C /repo worktree add -q --detach "$WT" "${BASE:-HEAD}" || exit 3
 run_demo() { ( cd "$WT" && PYTHONPATH="$WT" timeout 120 /venv/bin/python "$S/demo.py" >/tmp/mt/demo_$ID.out 2>&1 </dev/null; echo $? ); }
 c1=$(run_demo); c1b=$(run_demo)
 git -C "$WT" apply "$S/patch.diff" || { echo "$ID: PATCH DOES NOT APPLY"; git -C /repo worktree remove --force "$WT"; exit 4; }
@@ -14,7 +14,7 @@ tests=$(python3 /verif/tools/repo_tests.py "$WT" 2>&1 | head -3 | tr '\n' ' ')
 git -C /repo worktree remove --force "$WT"
 echo "$ID: demo clean rc=$c1,$c1b  mutated rc=$m1,$m1b  tests: $tests"
 if [ "$c1" = 0 ] && [ "$c1b" = 0 ] && [ "$m1" != 0 ] && [ "$m1b" != 0 ] && echo "$tests" | grep -q "missing=0"; then
-  mkdir -p /verif/seeded/$ID && cp "$S/patch.diff" "$S/demo.py" /verif/seeded/$ID/ && python3 - "$S/meta.json" /verif/seeded/$ID/meta.json "$tests" "$(git -C /repo rev-parse --short HEAD)" <<'PY'
+  mkdir -p /verif/seeded/$ID && cp "$S/patch.diff" "$S/demo.py" /verif/seeded/$ID/ && python3 - "$S/meta.json" /verif/seeded/$ID/meta.json "$tests" "$(git -C /repo rev-parse --short "${BASE:-HEAD}")" <<'PY'
 import json,sys
 try: m=json.load(open(sys.argv[1]))
 except Exception as e: m={'note':'agent meta.json unreadable: %s'%e}
